@@ -66,6 +66,26 @@ impl Case {
         c.extra = v.get("extra").cloned().unwrap_or(J::Null);
         Ok(c)
     }
+    /// Compact rendering for evidence samples (documents readable, at most six).
+    pub fn sample_json(&self) -> J {
+        let mut extra = self.extra.clone();
+        if let Some(o) = extra.as_object_mut() {
+            for (_, v) in o.iter_mut() {
+                if let Some(a) = v.as_array_mut() {
+                    a.truncate(8);
+                }
+            }
+        }
+        json!({
+            "kind": self.kind,
+            "rules": self.rules.iter().take(2).collect::<Vec<_>>(),
+            "docs": self.docs.iter().take(6).map(|d| d.show()).collect::<Vec<_>>(),
+            "n_docs": self.docs.len(),
+            "switches": self.switches,
+            "texts": self.texts.iter().take(6).collect::<Vec<_>>(),
+            "extra": extra,
+        })
+    }
     pub fn hash64(&self) -> u64 {
         hash_str(&self.to_json().to_string())
     }
@@ -193,7 +213,7 @@ impl Report {
                         // spread samples: keep the first few and then every so often
                         && (self.samples.len() < 4 || self.nontrivial.len() % 97 == 0)
                     {
-                        self.samples.push(case.to_json());
+                        self.samples.push(case.sample_json());
                     }
                 }
             }
